@@ -1,0 +1,61 @@
+//! Verification hooks for property C10 (Gaussian mixture).  Compiled only with
+//! `--cfg linfa_verif`; thin read-only wrappers around private items of
+//! `gaussian_mixture::algorithm` (this file is a child module of it).
+use super::*;
+
+/// assemble a mixture from explicit parameters (no fitting)
+pub fn from_parts(
+    weights: Array1<f64>,
+    means: Array2<f64>,
+    covariances: Array3<f64>,
+    precisions: Array3<f64>,
+    precisions_chol: Array3<f64>,
+) -> GaussianMixtureModel<f64> {
+    GaussianMixtureModel {
+        covar_type: GmmCovarType::Full,
+        weights,
+        means,
+        covariances,
+        precisions,
+        precisions_chol,
+    }
+}
+
+pub fn precisions_chol(gmm: &GaussianMixtureModel<f64>) -> &Array3<f64> {
+    &gmm.precisions_chol
+}
+
+/// `(nk, means, covariances)` of one M-step (weights are `nk / n_samples` at the call sites)
+#[allow(clippy::type_complexity)]
+pub fn estimate_gaussian_parameters(
+    observations: &Array2<f64>,
+    resp: &Array2<f64>,
+    reg_covar: f64,
+) -> Result<(Array1<f64>, Array2<f64>, Array3<f64>), GmmError> {
+    GaussianMixtureModel::<f64>::estimate_gaussian_parameters(
+        observations,
+        resp,
+        &GmmCovarType::Full,
+        reg_covar,
+    )
+}
+
+pub fn compute_precisions_cholesky_full(covariances: &Array3<f64>) -> Result<Array3<f64>, GmmError> {
+    GaussianMixtureModel::<f64>::compute_precisions_cholesky_full(covariances)
+}
+
+pub fn compute_precisions_full(precisions_chol: &Array3<f64>) -> Array3<f64> {
+    GaussianMixtureModel::<f64>::compute_precisions_full(precisions_chol)
+}
+
+/// `(log_prob_norm, log_resp)` of the E-step
+pub fn estimate_log_prob_resp(
+    gmm: &GaussianMixtureModel<f64>,
+    observations: &Array2<f64>,
+) -> (Array1<f64>, Array2<f64>) {
+    gmm.estimate_log_prob_resp(observations)
+}
+
+pub fn estimate_weighted_log_prob(gmm: &GaussianMixtureModel<f64>, observations: &Array2<f64>) -> Array2<f64> {
+    gmm.estimate_weighted_log_prob(observations)
+}
